@@ -352,6 +352,11 @@ func DiscoverCase(t *Tool, roots []string, args []string) gen.Case {
 		}
 		c.Impl = "ok " + JoinL(";", xs)
 		c.Class = fmt.Sprintf("discover:ok:%d", min(len(resp.Repos), 4))
+		for _, d := range wantDot(roots) {
+			_ = d
+			c.Class += "+dot" // a repository that is, or lies below, a dot-directory
+			break
+		}
 		c.Nontrivial = len(resp.Repos) >= 2
 	}
 	// Go oracle (independent walk)
@@ -372,4 +377,26 @@ func DiscoverCase(t *Tool, roots []string, args []string) gen.Case {
 	}
 	c.Detail = gen.Detail(map[string]any{"roots": roots, "err": resp.Err, "repos": resp.Repos})
 	return c
+}
+
+// wantDot: repositories the independent walk finds whose root-relative path has a component starting with "."
+func wantDot(roots []string) []Discovered {
+	var out []Discovered
+	for _, root := range roots {
+		var found []Discovered
+		walkRoot(root, root, "", &found)
+		for _, d := range found {
+			rel, err := filepath.Rel(root, d.Source)
+			if err != nil || rel == "." {
+				continue
+			}
+			for _, comp := range strings.Split(rel, "/") {
+				if strings.HasPrefix(comp, ".") {
+					out = append(out, d)
+					break
+				}
+			}
+		}
+	}
+	return out
 }
